@@ -15,7 +15,7 @@
 From Coq Require Import List NArith ZArith Bool.
 Import ListNotations.
 Require Import V.base.Bytes V.base.Fld V.gen.Expanders V.gen.Mappers V.gen.Formulas.
-Require Import V.model.H2c V.model.CurveParams V.model.Curve.
+Require Import V.model.H2c V.model.CurveParams V.model.Curve V.model.H2cPoly.
 
 Record wsuite := mk_wsuite {
   ws_curve : wparams;
@@ -55,6 +55,21 @@ Definition bls12381g1_suite : wsuite := {|
   ws_sqrt := bls12381g1_SqrtRatio; ws_sgn0 := bls12381g1_Sgn0;
   ws_xnum := bls12381g1_XNum; ws_xden := bls12381g1_XDen; ws_ynum := bls12381g1_YNum; ws_yden := bls12381g1_YDen;
   ws_cof := bls12381g1_clear_cofactor; ws_heff := bls12381g1_cofactor_scalar |}.
+
+(* pasta (not RFC 9380 suites; same construction with BLAKE2b-512, the generic sqrt_ratio and a 3-isogeny) *)
+Definition pallas_suite : wsuite := {|
+  ws_curve := pallas_params; ws_L := pallas_L; ws_expander := pallas_expander; ws_kind := pallas_mapper_kind;
+  ws_mulA := pallas_MulByA; ws_mulB := pallas_MulByB; ws_Z := pallas_SetZ; ws_sqrt := pallas_SqrtRatio;
+  ws_sgn0 := pallas_Sgn0;
+  ws_xnum := pallas_XNum; ws_xden := pallas_XDen; ws_ynum := pallas_YNum; ws_yden := pallas_YDen;
+  ws_cof := pallas_clear_cofactor; ws_heff := 1 |}.
+
+Definition vesta_suite : wsuite := {|
+  ws_curve := vesta_params; ws_L := vesta_L; ws_expander := vesta_expander; ws_kind := vesta_mapper_kind;
+  ws_mulA := vesta_MulByA; ws_mulB := vesta_MulByB; ws_Z := vesta_SetZ; ws_sqrt := vesta_SqrtRatio;
+  ws_sgn0 := vesta_Sgn0;
+  ws_xnum := vesta_XNum; ws_xden := vesta_XDen; ws_ynum := vesta_YNum; ws_yden := vesta_YDen;
+  ws_cof := vesta_clear_cofactor; ws_heff := 1 |}.
 
 Section Suite.
   Variable H : bytes -> bytes.          (* the suite's hash (a recorded table in the driver) *)
@@ -123,6 +138,16 @@ Section Suite.
     | Some us => Some (ws_to_affine (ws_clear (ws_map (nth 0 us 0%Z))))
     end.
 
+  (* the isogeny identity of model/H2cPoly.v on the suite's regenerated constants (hypothesis of
+     zero_map_on_curve); A' = MulByA(1), B' = MulByB(1) *)
+  Definition ws_iso_identity : bool :=
+    match ws_kind s with
+    | sswu_ZeroPointMapper =>
+        iso_identity_b K (ws_mulA s K (f1 K)) (ws_mulB s K (f1 K)) (wp_a (ws_curve s)) (wp_b (ws_curve s))
+          (ws_xnum s) (ws_xden s) (ws_ynum s) (ws_yden s)
+    | _ => true
+    end.
+
   (* membership predicates evaluated by the model on a point *)
   Definition ws_on_curve (P : @wpoint Z) : bool := w_on_curve (ws_curve s) P.
   Definition ws_in_subgroup (P : @wpoint Z) : bool :=
@@ -187,3 +212,69 @@ Section EdSuite.
   Definition ed_in_subgroup (P : option (Z * Z)) : bool :=
     match P with Some Q => e_eqb c (e_mul c (ep_n c) Q) (eaff_zero (Zp p)) | None => false end.
 End EdSuite.
+
+(* ---- BLS12381G2_XMD:SHA-256_SSWU_RO_ : the same construction over F_p^2 (m = 2) ---------------- *)
+(* h_eff of RFC 9380 section 8.8.2: the code clears the cofactor with the psi-based method of RFC 9380
+   appendix G.4 (g2_params.go clearCofactorBls12381G2), which the RFC states to be equal to
+   multiplication by h_eff; the model multiplies by h_eff with the affine law of model/Curve.v. *)
+Definition bls12381g2_h_eff : Z :=
+  0xbc69f08f2ee75b3584c6a0ea91b352888e2a8e9145ad7689986ff031508ffe1329c2f178731db956d82bf015d1212b02ec0ec69d7477c1ae954cbc06689f6a359894c0adebbf6b4e8020005aaa95551.
+
+Section G2Suite.
+  Variable H : bytes -> bytes.
+  Variables b_in_bytes s_in_bytes : N.
+
+  Let c := bls12381g2_params.
+  Let p := w2_p c.
+  Let K := Fp2 p.
+
+  Definition g2_h2f (count : N) (dst msg : bytes) : option (list (Z * Z)) :=
+    option_map (map (fun e => (Z.of_N (nth 0 e 0%N), Z.of_N (nth 1 e 0%N))))
+      (hash_to_field (expand_message_xmd H b_in_bytes s_in_bytes) (Z.to_N p) bls12381g2_L 2 count dst msg).
+
+  Definition g2_map (u : Z * Z) : (Z * Z) * (Z * Z) * (Z * Z) :=
+    let '(xn, xd, yn, yd) :=
+      match bls12381g2_mapper_kind with
+      | sswu_ZeroPointMapper =>
+          ZeroPointMapper_Map K (bls12381g2_MulByA K) (bls12381g2_MulByB K) bls12381g2_SetZ (bls12381g2_SqrtRatio K)
+            bls12381g2_Sgn0 bls12381g2_XNum bls12381g2_XDen bls12381g2_YNum bls12381g2_YDen u
+      | _ => (f0 K, f0 K, f0 K, f0 K)
+      end in
+    W_setFractions K xn xd yn yd.
+
+  Definition g2_add (P Q : (Z * Z) * (Z * Z) * (Z * Z)) :=
+    let '(x1, y1, z1) := P in let '(x2, y2, z2) := Q in
+    W_Add K (w2_a c) (w2_b c) x1 y1 z1 x2 y2 z2.
+
+  Definition g2_to_affine (P : (Z * Z) * (Z * Z) * (Z * Z)) : @wpoint (Z * Z) :=
+    let '(X, Y, Zc) := P in
+    let '(ok, x, y) := W_ToAffine K (f0 K) (f0 K) X Y Zc in
+    if ok then Some (x, y) else None.
+
+  Definition g2_clear (P : (Z * Z) * (Z * Z) * (Z * Z)) :=
+    match bls12381g2_clear_cofactor with
+    | Cofactor_bls12381g2_psi =>
+        match w2_mul c bls12381g2_h_eff (g2_to_affine P) with
+        | Some (x, y) => (x, y, f1 K)
+        | None => (f0 K, f1 K, f0 K)
+        end
+    | _ => (f0 K, f0 K, f0 K)
+    end.
+
+  Definition g2_hash_to_curve (dst msg : bytes) : option (@wpoint (Z * Z)) :=
+    match g2_h2f 2 dst msg with
+    | None => None
+    | Some _ =>
+        Some (g2_to_affine
+          (W_Hash (fun cn d m => match g2_h2f cn d m with Some l => l | None => [] end)
+                  g2_map g2_add g2_clear (0, 0)%Z dst msg))
+    end.
+
+  Definition g2_iso_identity : bool :=
+    iso_identity_b K (bls12381g2_MulByA K (f1 K)) (bls12381g2_MulByB K (f1 K)) (w2_a c) (w2_b c)
+      bls12381g2_XNum bls12381g2_XDen bls12381g2_YNum bls12381g2_YDen.
+
+  Definition g2_on_curve (P : @wpoint (Z * Z)) : bool := w2_on_curve c P.
+  Definition g2_in_subgroup (P : @wpoint (Z * Z)) : bool :=
+    match w2_mul c (w2_n c) P with None => true | Some _ => false end.
+End G2Suite.
